@@ -121,14 +121,35 @@ SPECS["C12"] = dict(
     overlay=["verifx/c12"],
     jobs=[
         dict(name="c12", pkg="./verifx/c12", tests=[
-            dict(id="fresh", run="^TestC12ByteSliceFresh$", quick=dict(shards=6, checks=2500, timeout=300, steps=40),
-                 thorough=dict(shards=8, checks=60000, timeout=1800, steps=60)),
-            dict(id="global", run="^TestC12ByteSliceGlobal$", quick=dict(shards=3, checks=1500, timeout=300, steps=40),
-                 thorough=dict(shards=4, checks=40000, timeout=1800, steps=60)),
+            dict(id="fresh", run="^TestC12ByteSliceFresh$", quick=dict(shards=6, checks=2500, timeout=300, steps=40, env={"GOMAXPROCS": 2}),
+                 thorough=dict(shards=8, checks=60000, timeout=1800, steps=60, env={"GOMAXPROCS": 2})),
+            dict(id="global", run="^TestC12ByteSliceGlobal$", quick=dict(shards=3, checks=1500, timeout=300, steps=40, env={"GOMAXPROCS": 2}),
+                 thorough=dict(shards=4, checks=40000, timeout=1800, steps=60, env={"GOMAXPROCS": 2})),
             dict(id="concurrent", run="^TestC12Concurrent$", quick=dict(shards=2, checks=300, timeout=300),
                  thorough=dict(shards=2, checks=6000, timeout=1800)),
-            dict(id="ringpool", run="^TestC12RingPool$", quick=dict(shards=4, checks=2000, timeout=300, steps=40),
-                 thorough=dict(shards=6, checks=40000, timeout=1800, steps=60)),
+            dict(id="ringpool", run="^TestC12RingPool$", quick=dict(shards=4, checks=2000, timeout=300, steps=40, env={"GOMAXPROCS": 2}),
+                 thorough=dict(shards=6, checks=40000, timeout=1800, steps=60, env={"GOMAXPROCS": 2})),
         ]),
+    ],
+)
+
+ROOT_OVERLAY = ["zz_verif_c14_test.go", "zz_verif_c14_map_test.go", "zz_verif_c14_matrix_test.go"]
+
+SPECS["C14"] = dict(
+    level="exploration",
+    technique="stateful property-based testing (rapid state machine) of both connection registries (map; gc_opt matrix) against a Go map reference model",
+    rule="a case is a generated sequence of add(fd)/del(random|first|last|middle)/get(live or dead fd)/iterate/iterate-and-delete-all over distinct descriptor numbers "
+         "(small, up to 70000, up to 2^31, and just-removed numbers), plus bulk populations of 65534..69536 entries that cross the matrix row boundary; after every step lookups of live "
+         "and recently removed descriptors, the count and (matrix) every live connection's stored position are compared with the model; "
+         "non-trivial = a non-last entry was deleted while other entries were live (relocation), resp. the population crossed the row boundary; distinct = distinct history",
+    assumptions=["descriptor numbers are distinct among live connections (the kernel guarantees it)", "bare conn values (only fd set) stand in for connections"],
+    overlay=ROOT_OVERLAY,
+    jobs=[
+        dict(name="c14-" + tagname(tg), pkg=".", tags=tg, tests=[
+            dict(id="registry", run="^TestC14Registry$", quick=dict(shards=4, checks=1500, timeout=300, steps=40),
+                 thorough=dict(shards=8, checks=25000, timeout=1800, steps=60)),
+            dict(id="rowboundary", run="^TestC14RowBoundary$", quick=dict(shards=2, checks=6, timeout=300),
+                 thorough=dict(shards=4, checks=150, timeout=1800)),
+        ]) for tg in ["", "gc_opt"]
     ],
 )
